@@ -24,31 +24,96 @@ SCRATCH_NOTE = ("Trusted: rustc, Kani 0.68 / CBMC 6.11 / CaDiCaL, the harness or
 VSHIM_NOTE = ("Mode vshim additionally replaces String/Vec/VecDeque/HashMap/BTreeMap/Rc<str>/Arc by bounded array-backed models (capacities: 8-byte strings, "
               "6-element vectors, 4-entry maps under Kani), adds #[repr(u8)] to the enums and stubs core::mem::swap with a typed swap; the models are validated by "
               "running the repository's own 95 tests on the shimmed build (vlib/validate.py). Capacity overflow inside a harness is reported as inconclusive.")
+STEP = "Kani/CBMC bounded model checking of the compiled source: "
 CLAIMED.update({
+    "C01": (
+        "Claimed for the VM / linker mechanisms that carry control flow, each as a solver-decided step: ON selection moves the program counter exactly as documented for every selector/count value; "
+        "RETURN resumes after its GOSUB and discards loop frames abandoned inside the subroutine; fragments appended by the linker keep statement-local labels local and resolve branches by line number "
+        "(line 0 included) wherever they are placed. The composition text -> tokens -> AST -> fragments -> run over whole programs is outside this check (DESIGN.md §3).",
+        SCRATCH_NOTE + VSHIM_NOTE, STEP + "one VM / linker step from a symbolic pre-state", "§4 C01"),
     "C02": (
         "Bounded model checking of the real operator / conversion / numeric-function code over ALL operand bit patterns of every Integer/Single/Double type pair: "
         "result type follows the documented promotion, value equals the operation carried out at the promoted type (bit-exact), '/' on Integers is computed in Single, "
         "\\, MOD and the logical operators work on floor-converted 16-bit Integers (truth tables bit by bit), relational operators yield exactly 0 or -1, "
-        "non-numeric operands raise TYPE MISMATCH. Claimed for these kernels only: precedence climbing, literal text->number and assignment are outside this check (DESIGN.md §4 C02).",
-        SCRATCH_NOTE + "Float multiplication/division with both operands symbolic is checked per type pair (thorough tier); the quick tier checks * / \\ MOD with a symbolic "
+        "non-numeric operands raise TYPE MISMATCH; both precedence tables equal the manual's 13 levels; undecorated literals of up to 4 characters are typed by the manual's rules; assignment converts to the variable's type or fails. "
+        "Precedence climbing itself and literal text->number conversion are outside this check (DESIGN.md §4 C02).",
+        SCRATCH_NOTE + VSHIM_NOTE + " Float multiplication/division with both operands symbolic is checked per type pair (thorough tier); the quick tier checks * / \\ MOD with a symbolic "
         "left operand against two concrete right operands per type pair. powf/powi values are not asserted (libm).",
-        "Kani/CBMC bounded model checking of the compiled source, symbolic operands of every numeric type pair, native replay of counterexamples",
-        "§4 C02"),
+        STEP + "symbolic operands of every numeric type pair, native replay of counterexamples", "§4 C02"),
+    "C03": (
+        "Claimed for the kernels: the numeric scanner returns (progress budget + unwinding assertion) for every 3- and 4-character input over its alphabet; one INPUT field conversion never panics for every field of up to 4 quote/blank/letter characters; "
+        "BREAK is reported once and leaves the VM stopped; every arithmetic / conversion harness of C02 / C08 doubles as a no-panic check (Kani asserts overflow, division, casts). "
+        "The full enter/execute protocol, the parser and the listing snapshot are outside this check.",
+        SCRATCH_NOTE + VSHIM_NOTE, STEP + "symbolic character buffers / VM steps, termination by progress budget + unwinding assertions", "§4 C03"),
+    "C04": (
+        "Inductive one-step obligations on every path that mutates the listing, from an arbitrary bounded state: entering / replacing / deleting a line (present or absent), DELETE a-b, RENUM, NEW and loading "
+        "each leave the recompilation flag set when the listing changed, never clear it, cancel the continuation and discard pending RETURN/NEXT frames; the next direct statement recompiles and nothing of a program whose listing was emptied stays in program memory. "
+        "That the recompiled code equals a fresh compile of the same listing is the compiler composition and outside this check.",
+        SCRATCH_NOTE + VSHIM_NOTE, STEP + "inductive one-step obligation from a symbolic pre-state", "§4 C04"),
+    "C05": (
+        "Claimed for numeric literals and relational operators: for every 3- and 4-character input over the numeric alphabet the listed text of the scanned literal, followed by the same rest of the line, re-scans to the same literal of the same type; "
+        "all spellings of the two-character relational operators merge to one token. Identifiers / keyword crunching, strings, remarks and whole-line round trips are outside this check.",
+        SCRATCH_NOTE + VSHIM_NOTE, STEP + "symbolic character buffer, scanner run twice", "§4 C05"),
+    "C06": (
+        "One-step obligations on the variable store: an unassigned variable reads as zero of the type given by its suffix or its first letter's DEFtype (all 4^26 tables); a store leaves a value of the variable's own type or fails with TYPE MISMATCH / OVERFLOW and stores nothing; "
+        "a 2-dimensional array accepts exactly 0..bound in each dimension for every Integer subscript pair; an undeclared array has bound 10 and cannot be dimensioned afterwards. Aliasing between names (key construction) is outside this check.",
+        SCRATCH_NOTE + VSHIM_NOTE, STEP + "symbolic DEFtype table, values and subscripts", "§4 C06"),
+    "C07": (
+        "Claimed for all numeric arguments on fixed strings: LEFT$, RIGHT$, MID$ (and INSTR in the thorough tier) on a string of 1-, 2- and 4-byte characters return exactly the documented characters for every Integer argument and raise errors for out-of-domain ones; "
+        "the 255 limit counts characters (128 and 255 two-byte characters are storable, 256 ASCII characters are not); SPC / TAB lengths are exact. Symbolic strings, VAL/STR$ and MID$ assignment are outside this check.",
+        SCRATCH_NOTE + "The 255-limit harnesses stub Var::update_val (map update) and RandomState::new; strings are concrete.", STEP + "symbolic numeric arguments on fixed multi-byte strings", "§4 C07"),
+    "C09": (
+        "Claimed for the data pointer and the data addresses of symbols: READ delivers the constant under the pointer and advances or raises OUT OF DATA; RESTORE to any data address, including the one just past the last constant, is honoured; "
+        "for every distribution of 0..1 constants over three lines RESTORE n links to the first constant at or after line n. Type conversion on READ and whole programs are outside this check.",
+        SCRATCH_NOTE + VSHIM_NOTE, STEP + "link-level programs with symbolic data layout", "§4 C09"),
+    "C10": (
+        "Claimed per mechanism: parameter renaming is injective over FNA / FNA$ / FNA! / FNA# / FNA% (parameters of different functions never share a variable); the call step checks arity, pushes the return address under the reversed arguments and reports UNDEFINED USER FUNCTION; "
+        "DEF is ILLEGAL DIRECT outside a program; RETURN hands exactly the function result back. Evaluation of compiled function bodies is outside this check.",
+        SCRATCH_NOTE + VSHIM_NOTE, STEP + "one VM step / renaming function with symbolic choices", "§4 C10"),
+    "C11": (
+        "Claimed for the column arithmetic: PRINT of a string leaves the column equal to the characters since the last newline for every string of up to 3 ASCII characters and every prior column; TAB(x), the zone advance TAB(-14), SPC and POS are exact for every column below 65536 and every Integer argument. "
+        "Number formatting and print-list desugaring are outside this check.",
+        SCRATCH_NOTE + VSHIM_NOTE + " str::repeat is modelled by a routine recording the requested length.", STEP + "symbolic column / argument / characters", "§4 C11"),
     "C12": (
         "One-step obligations from an arbitrary bounded state, decided by the solver: Var::clear leaves no variable, no array dimension and all 26 DEFtype entries at the "
-        "start-up default for every one of the 4^26 type tables; RUN compiles to exactly [CLEAR, JUMP n]. Any session history ends in one of these steps, so histories of any length are covered "
-        "by the step; that the whole run after the reset equals a fresh run (composition with codegen/link) is outside the claim.",
-        SCRATCH_NOTE + VSHIM_NOTE,
-        "Kani/CBMC bounded model checking, inductive one-step obligation from a symbolic pre-state",
-        "§4 C12"),
+        "start-up default for every one of the 4^26 type tables; RUN compiles to exactly [CLEAR, JUMP n]; NEW leaves an empty listing, TROFF, an empty stack and no continuation. Any session history ends in one of these steps; "
+        "that the whole run after the reset equals a fresh run (composition with codegen/link) is outside the claim.",
+        SCRATCH_NOTE + VSHIM_NOTE, STEP + "inductive one-step obligation from a symbolic pre-state", "§4 C12"),
     "C13": (
         "One-step obligations of the interrupt/STOP/END/CONT bookkeeping from an arbitrary state (all 10 VM states, symbolic pc / entry address / stack contents): interrupt() saves exactly the "
         "interrupted state and position when inside the program, END/STOP save a continuation exactly when inside the program, CONT restores state and pc and consumes the continuation, a direct "
         "statement never disturbs a saved continuation, BREAK is reported once and leaves the VM stopped. execute()-level harnesses use a concrete control skeleton (which opcode, which position) with symbolic data. "
         "Quantum independence over compiled programs is outside this check.",
-        SCRATCH_NOTE + VSHIM_NOTE,
-        "Kani/CBMC bounded model checking, one VM step from a symbolic pre-state",
-        "§4 C13"),
+        SCRATCH_NOTE + VSHIM_NOTE, STEP + "one VM step from a symbolic pre-state", "§4 C13"),
+    "C14": (
+        "RENUM's numbering for ALL argument triples over a 2-line listing with arbitrary numbers (fails and changes nothing, or keeps lines below old-start and numbers the rest new, new+step in order without collisions and within 65529), "
+        "and the reference collector on directly built statements of every referencing form (GOTO, GOSUB, THEN n, ELSE n, ON..GOTO, ON..GOSUB, RESTORE n, RUN n, LIST/DELETE a-b) and on the operand-less forms, for arbitrary line numbers and change maps. "
+        "The text splice and re-lex of a renumbered line are outside this check.",
+        SCRATCH_NOTE + VSHIM_NOTE, STEP + "symbolic line numbers / RENUM arguments / change map", "§4 C14"),
+    "C15": (
+        "The program store from an arbitrary 3-line state n0<n1<n2: one LIST resumption step emits the lowest line inside an arbitrary inclusive range and leaves exactly the remaining lines to list (induction gives the whole listing), "
+        "DELETE a-b removes exactly the lines inside, a numbered line inserts or replaces and nothing else changes, a bare number deletes; the bare DELETE is rejected. Operand parsing and line-number recognition in the lexer are outside this check.",
+        SCRATCH_NOTE + VSHIM_NOTE + " The LIST step stubs <Line as Display>::fmt by a 2-character rendering of the line number.", STEP + "symbolic line numbers and ranges on a concrete-shape store", "§4 C15"),
+    "C16": (
+        "Claimed for the operator-merging passes: each of the 9 pairs of relational characters, adjacent and with any number of blanks between them, lexes to the documented single operator (or stays apart). "
+        "Case folding of exponent letters is covered by the C05 fixpoint harnesses. Identifiers/keywords, GO TO, LET elision are outside this check.",
+        SCRATCH_NOTE + VSHIM_NOTE + " One harness per character pair (the pair is concrete, the blank count symbolic).", STEP + "token vectors with symbolic blank count", "§4 C16"),
+    "C17": (
+        "Claimed for reply handling steps: a reply of up to 3 comma/quote/letter characters is split at commas outside quotes into exactly the fields the variables need or rejected atomically (REDO FROM START, nothing staged); "
+        "a string field of up to 4 quote/blank/letter characters is stripped of surrounding blanks and of one pair of enclosing quotes. Numeric field conversion and the prompt are outside this check.",
+        SCRATCH_NOTE + VSHIM_NOTE, STEP + "symbolic reply characters", "§4 C17"),
+    "C18": (
+        "Claimed for frames on the value stack: ON consumes exactly its two operands for every value; RETURN leaves nothing of the subroutine behind, also when a FOR loop was abandoned inside it, and hands back exactly one function result; "
+        "RETURN without GOSUB is reported; storing zero frees the variable slot. Pool limits at 65535 entries and per-statement residue over compiled programs are outside this check.",
+        SCRATCH_NOTE + VSHIM_NOTE, STEP + "one VM step from a symbolic stack", "§4 C18"),
+    "C19": (
+        "Claimed for the column machinery and the execution gate: a diagnostic's range is shifted by exactly the line-number prefix for every line number and range; parser columns count characters for every Unicode scalar value in a string literal; "
+        "a jump into a program with recorded compile errors stops and reports them without executing an instruction, while direct code still runs. Which ranges the parser/linker attach to which construct is outside this check.",
+        SCRATCH_NOTE + VSHIM_NOTE, STEP + "symbolic line numbers, columns and characters", "§4 C19"),
+    "C20": (
+        "Claimed for the linker's relocation: a fragment appended after 0 or 1 earlier local labels keeps its own labels local and its branch to line n (n symbolic, 0 included) resolves to line n's code defined later; "
+        "RESTORE n resolves to the data address of line n for every data layout of three lines. Direct-vs-program mode equivalence over compiled programs is outside this check.",
+        SCRATCH_NOTE + VSHIM_NOTE, STEP + "link-level fragments with symbolic line numbers", "§4 C20"),
 })
 
 ALL = ["C%02d" % i for i in range(1, 21)]
